@@ -150,11 +150,12 @@ func (l *FakeListener) Close() error {
 		return &net.OpError{Op: "close", Net: "fake", Err: net.ErrClosed} // like a real listener closed twice
 	}
 	l.closed = true
-	l.cond.Broadcast()
-	l.mu.Unlock()
 	if l.rec != nil {
+		// recorded before the accept loop can observe the closure (and Serve can go on to return)
 		l.rec.Emit(E{"e": "lclose"})
 	}
+	l.cond.Broadcast()
+	l.mu.Unlock()
 	return nil
 }
 
